@@ -19,7 +19,9 @@ PROPERTY_ID = 'C11'
 LEVEL = 'exploration'
 RULE = ('histories of up to 14 ops (cd to act/tmp/new sub dirs, env set with ${..} references to known, unknown '
         'and the same variable, env value taken from a program run in the addressed environment, env unset, '
-        '-of act / -of !act in [setup], timeout changes, def, child-process cd) with probes after random ops, '
+        '-of act / -of !act in [setup], timeout changes, def, child-process cd, def path with current-directory '
+        'relativity and uses of it - directly, with a suffix, through a second path symbol - before and after cd) '
+        'with probes after random ops, '
         'distributed over setup/before-assert/assert/cleanup in order; act = probe. Non-trivial = a change followed '
         'by a probe in a later phase (or the act probe after a setup change); distinct = distinct history. '
         'Sub-check timeout_persists: enumerated cells (place of a process in a later instruction / phase x other '
@@ -54,6 +56,8 @@ class Model:
         self.act_dir = act_dir
         self.tmp_dir = tmp_dir
         self.symbols = []
+        self.paths = {}
+        self.marks = set()
 
     def sets(self, of, phase):
         if phase != 'setup':
@@ -86,6 +90,13 @@ class Model:
                 self.cwd = os.path.join(self.act_dir, t[7:])
         elif k == 'def':
             self.symbols.append((op[1], op[2]))
+        elif k == 'defpath':
+            # def path NAME = SUFFIX: relative to the current directory *at the time of use*
+            self.paths[op[1]] = op[2]
+
+    def path_value(self, name):
+        """what a reference to the path symbol denotes now"""
+        return os.path.normpath(os.path.join(self.cwd, self.paths[name]))
 
 
 # ---- rendering ---------------------------------------------------------------------------------------------
@@ -118,6 +129,17 @@ def render_op(phase, op, idx):
         return ['timeout = %s' % op[1]]
     if k == 'def':
         return ['def string %s = %s' % (op[1], op[2])]
+    if k == 'defpath':
+        return ['def path %s = %s' % (op[1], op[2])]
+    if k == 'usepath':
+        # the value of the path symbol (an absolute path) as a shell command sees it, directly and through a
+        # second symbol built on it
+        how = op[2]
+        ref = {'plain': '@[%s]@' % op[1], 'suffix': '@[%s]@/leaf' % op[1]}.get(how)
+        if how == 'derived':
+            return ['def path D%d = -rel %s leaf' % (idx, op[1]),
+                    "$ printf %%s '@[D%d]@' > {OBS}/pp%d" % (idx, idx)]
+        return ["$ printf %%s '%s' > {OBS}/pp%d" % (ref, idx)]
     if k == 'child_cd':
         return ['$ cd / && export VA=from-child && true']
     if k == 'probe':
@@ -188,6 +210,9 @@ def check(case) -> Verdict:
                 pw = os.path.join(ws.obs, 'p%d.pwd' % idx)
                 obs[idx] = (_read_env0(os.path.join(ws.obs, 'p%d.env' % idx)),
                             open(pw).read().strip() if os.path.exists(pw) else None)
+            elif op[0] == 'usepath':
+                pp = os.path.join(ws.obs, 'pp%d' % idx)
+                obs[idx] = open(pp).read() if os.path.exists(pp) else None
             elif op[0] == 'pyprobe':
                 recs = ws.probe_records('py%d' % idx)
                 obs[idx] = (recs[0]['env'], recs[0]['cwd']) if len(recs) == 1 else (None, None)
@@ -246,8 +271,23 @@ def check(case) -> Verdict:
                 if any(p != ph for p in changed_phases):
                     nontrivial = True
                     labels.append('probe-after-change-in-earlier-phase')
+            elif op[0] == 'usepath':
+                want = m.path_value(op[1]) + ('/leaf' if op[2] in ('suffix', 'derived') else '')
+                if obs[idx] is None or os.path.normpath(obs[idx]) != want:
+                    detail['path-use'] = {'op': op, 'expected': want, 'observed': obs[idx]}
+                    return fail('path-symbol-not-relative-to-current-directory/' + ph, detail, labels=labels,
+                                nontrivial=True)
+                labels.append('op:usepath:' + op[2])
+                if 'cd-after-first-path-use:' + op[1] in m.marks:
+                    labels.append('path-symbol-used-before-and-after-cd')
+                    nontrivial = True
+                m.marks.add('path-used:' + op[1])
             else:
                 m.apply(ph, op)
+                if op[0] == 'cd':
+                    for mk in list(m.marks):
+                        if mk.startswith('path-used:'):
+                            m.marks.add('cd-after-first-path-use:' + mk[len('path-used:'):])
                 if op[0] in ('env', 'env_prog', 'unset', 'cd'):
                     changed_phases.add(ph)
                 labels.append('op:' + op[0] + (':' + op[1] if op[0] in ('env', 'unset', 'env_prog') and ph == 'setup'
@@ -281,7 +321,8 @@ def histories(draw, max_ops=14):
                     key=IPHASES.index)
     for ph in phases:
         kind = draw(st.sampled_from(['env', 'env', 'env', 'unset', 'cd', 'cd', 'probe', 'probe', 'probe',
-                                     'timeout', 'def', 'child_cd', 'env_prog', 'env_prog', 'pyprobe']))
+                                     'timeout', 'def', 'child_cd', 'env_prog', 'env_prog', 'pyprobe',
+                                     'path', 'path']))
         if kind == 'env':
             ops[ph].append(['env', draw(_of), draw(st.sampled_from(NAMES)),
                             [list(x) for x in draw(st.lists(_part, min_size=0, max_size=3))]])
@@ -300,6 +341,13 @@ def histories(draw, max_ops=14):
         elif kind == 'def':
             ops[ph].append(['def', 'S%d' % len([1 for p in IPHASES for o in ops[p] if o[0] == 'def']),
                             draw(st.sampled_from(['v', 'w', '"a b"']))])
+        elif kind == 'path':
+            defined = [o[1] for p in IPHASES for o in ops[p] if o[0] == 'defpath']
+            if not defined or (len(defined) < 2 and draw(st.integers(0, 3)) == 0):
+                ops[ph].append(['defpath', 'P%d' % len(defined), draw(st.sampled_from(['pd', 'pd/sub', '.', 'q']))])
+                defined.append('P%d' % (len(defined)))
+            ops[ph].append(['usepath', draw(st.sampled_from(defined)),
+                            draw(st.sampled_from(['plain', 'plain', 'suffix', 'derived']))])
         elif kind == 'child_cd':
             ops[ph].append(['child_cd'])
         elif kind == 'pyprobe' and n_py < 1:
